@@ -84,6 +84,9 @@ func (om *omap) find(m *machine, k value) *mentry {
 	if om == nil {
 		return nil
 	}
+	if str, ok := k.(string); ok && strings.Contains(str, symPlaceholder) {
+		panic(engineError("a string formatted from a symbolic value is used as a map key: " + str))
+	}
 	ks, conc := concreteKey(k)
 	if conc {
 		if e := om.idx[ks]; e != nil {
